@@ -349,8 +349,18 @@ def c17(tier):
         f = os.path.join(wd, 'sw%d.bc' % i)
         open(f, 'wb').write(bytes(o['bytes']))
         rc, so, se = sh([exe, 'disassemble', f], wd)
-        return [{'key': sw[i]['name'] + ' :: listing', 'val': {'ok': True, 'd': hashlib.sha1((o['listing'] + '\n').encode('utf-8')).hexdigest()}, 'cfg': 'in-process Display of the loaded program, followed by a line break (println!)'},
-                {'key': sw[i]['name'] + ' :: listing', 'val': {'ok': rc == 0, 'd': hashlib.sha1(so).hexdigest()}, 'cfg': '`fml disassemble FILE`'}]
+        r = [{'key': sw[i]['name'] + ' :: listing', 'val': {'ok': True, 'd': hashlib.sha1((o['listing'] + '\n').encode('utf-8')).hexdigest()}, 'cfg': 'in-process Display of the loaded program, followed by a line break (println!)'},
+             {'key': sw[i]['name'] + ' :: listing', 'val': {'ok': rc == 0, 'd': hashlib.sha1(so).hexdigest()}, 'cfg': '`fml disassemble FILE`'}]
+        if i % 40 == 7:
+            # the file may be given in other ways than as the path of a regular file: standard input, a symbolic link, a pipe (process substitution), /dev/stdin
+            ln = os.path.join(wd, 'sw%d.link' % i)
+            if not os.path.exists(ln):
+                os.symlink(f, ln)
+            for cfgname, cmd in (('`fml disassemble < FILE`', '"%s" disassemble < "%s"' % (exe, f)), ('`fml disassemble SYMLINK`', '"%s" disassemble "%s"' % (exe, ln)),
+                                 ('`fml disassemble <(cat FILE)` (a pipe)', '"%s" disassemble <(cat "%s")' % (exe, f)), ('`cat FILE | fml disassemble /dev/stdin`', 'cat "%s" | "%s" disassemble /dev/stdin' % (f, exe))):
+                pr = subprocess.run(['bash', '-c', cmd], cwd=wd, stdout=subprocess.PIPE, stderr=subprocess.PIPE, timeout=60)
+                r.append({'key': sw[i]['name'] + ' :: listing', 'val': {'ok': pr.returncode == 0, 'd': hashlib.sha1(pr.stdout).hexdigest()}, 'cfg': cfgname})
+        return r
     sobs = []
     with ThreadPoolExecutor(max_workers=12) as ex:
         for r in ex.map(sweep_one, range(len(sw))):
@@ -441,6 +451,13 @@ EDGE_SNIPPETS = [
     'if a then b', 'if a then b else c', 'if a then if b then c else d', 'if a b', 'if a then', 'if then b', 'if a then b else', 'if a then b else c else d', 'if a then b; c', 'if (a) then (b) else (c)', 'ifathenb',
     'while a do b', 'while a b', 'while do b', 'while a do', 'while a do b; c', 'while a do begin b; c end', 'while a do while b do c', 'while a do let b = 1', 'while a do if b then c',
     'print("a")', 'print("~", 1)', 'print("~" 1)', 'print("~", 1,)', 'print()', 'print(1)', 'print(a, 1)', 'print "a"', 'print("a", )', 'print ("a")', 'print("a")("b")', 'print("a").b', 'let p = print("a")',
+    # forms that end in an open construct (a one-armed if, a let, an assignment, a loop) directly in every operand slot
+    'array(5, if c then i)', 'array(if t then 2, 0)', 'array(2, let v = if c then 1)', 'array(let n = 2, 0)', 'array(while c do 1, 0)', 'array(2, while c do 1)', 'array(a <- 1, b <- 2)', 'array(2, x <- if c then 1)',
+    'f(if c then 1)', 'f(if c then 1, 2)', 'f(1, if c then 2)', 'f(let a = 1, a)', 'f(a <- 1)', 'f(while c do 1)', 'o.m(if c then 1)', 'o.m(if c then 1, 2)', 'a[if c then 1]', 'a[let i = 0]', 'a[i <- 0]',
+    'a[if c then 1] <- 2', 'a[0] <- if c then 1', 'o.f <- if c then 1', 'x <- if c then 1', 'let v = if c then 1', 'print("~", if c then 1)', 'print("~ ~", if c then 1, 2)', '(if c then 1)', '(if c then 1) + 2',
+    'if c then 1 + 2', '1 + if c then 2', 'if c then 1 else if d then 2', 'if if a then b then c', 'if a then b else c + 1', 'while if a then b do c', 'object extends if c then a begin end', 'object begin let f = if c then 1 end',
+    'object begin let f = if c then 1; let g = 2 end', 'object begin function m() -> if c then 1 end', 'object begin function m() -> if c then 1; let g = 2 end', 'function f() -> if c then 1', 'function f() -> if c then 1; 2',
+    'begin if c then 1 end', 'begin if c then 1; 2 end', 'begin let v = if c then 1; v end', 'while c do if d then 1', 'while c do if d then 1; 2', 'while c do x <- if d then 1',
     'null', 'true', 'false', 'null.f()', 'true & false', 'null == null', 'null(1)', 'true.b', '1.f()', '1.+(2)', '(1).+(2)', '1 .f()', '"a".b',
 ]
 EDGE_CONTEXTS = ['%s', 'let v = %s', 'print("~\\n", %s)', '%s; 1', 'begin %s end', 'f(%s)', '(%s)', 'if true then %s else 0']
